@@ -1186,3 +1186,34 @@ def lost_values(f, is_interesting):
         if hit is not None:
             out.append((a, hit))
     return out
+
+
+def address_orderings(f):
+    """Ordering comparisons (<, >, <=, >=) whose operands are pointers or smart pointers: their result depends on allocation addresses."""
+    def ptr_t(t):
+        t = (t or '').replace('const ', '').strip()
+        return t.startswith('std::shared_ptr<') or t.startswith('std::weak_ptr<') or t.endswith('*')
+    out = []
+    for b in f.walk():
+        op = b.get('op') or b.get('opc')
+        if b.get('k') in ('Bin', 'Call') and op in ('<', '>', '<=', '>=') and len(b.get('c', [])) == 2:
+            if all(ptr_t(x.get('t') or x.get('rt')) for x in b['c']):
+                out.append(b)
+    return out
+
+
+def rule_address_order(F, rep, rid, pred, where_txt):
+    from facts import AnalysisBroken, fixture_funcs
+    rep.rule(rid, 'no decision in %s orders two objects by their addresses (p < q on pointers or shared_ptrs): which of two variables comes "first" would depend on the allocation history of the process, '
+                  'so the same model could give different issue texts or results from one run (or one construction order) to the next' % where_txt)
+    fx = fixture_funcs('addrorder')
+    if len(address_orderings(fx['fixtureAddrOrderBad'])) != 1 or address_orderings(fx['fixtureAddrOrderGood']):
+        raise AnalysisBroken('%s: the detector does not separate the two fixture functions (sa/fixtures/src/addrorder.cpp)' % rid)
+    n = 0
+    for g in F.funcs.values():
+        if not pred(g):
+            continue
+        n += 1
+        for b in address_orderings(g):
+            rep.fail(rid, '%s|%s' % (g.short.split('::')[-1], render(b)[:40]), g.where(b), '%s orders two objects by address: `%s`' % (g.short, render(b)[:60]))
+    rep.ok(rid, 'scan', None, 'no ordering of objects by address in %d functions of %s (fixture: 1 of 2 functions flagged, as expected)' % (n, where_txt))
